@@ -147,7 +147,7 @@ def triple_case(draw, tier):
 	if shape == 'tiny':
 		n = draw(st.integers(1, 8))
 	else:
-		n = draw(st.one_of(st.integers(3, 60), st.integers(3, 400 if tier == 'quick' else 2000)))
+		n = draw(st.one_of(st.integers(3, 60), st.integers(3, 400), st.integers(3, 60), st.integers(400, 2000)))
 	span = min(lim, rnd.choice((n * 2, n * 10, 2 ** 15, 2 ** 31, 2 ** 40)))
 	span = max(span, n + 2)
 	U = sorted(rnd.sample(range(span), n)) if span < 10 ** 6 else sorted({rnd.randrange(span) for _ in range(n)})
